@@ -110,6 +110,9 @@ func vfMalformedOp(op *spb.AFTOperation) (badForDelete bool) {
 		l := vfU64("label")
 		vfAssume(vfOr(l < 16, l > 1048575))
 		op.Entry = &spb.AFTOperation_Mpls{Mpls: &aftpb.Afts_LabelEntryKey{Label: &aftpb.Afts_LabelEntryKey_LabelUint64{LabelUint64: l}, LabelEntry: &aftpb.Afts_LabelEntry{NextHopGroup: u(1)}}}
+		// a label that does not fit the 32-bit key cannot name any entry: even a DELETE of it is malformed (and must
+		// not alias the installed label with the same low 32 bits - label 200 is installed)
+		return l > 0xffffffff
 	case 14:
 		op.Entry = &spb.AFTOperation_Mpls{Mpls: &aftpb.Afts_LabelEntryKey{Label: &aftpb.Afts_LabelEntryKey_LabelUint64{LabelUint64: 100}}}
 	case 15:
@@ -167,6 +170,11 @@ func vfMalformedOp(op *spb.AFTOperation) (badForDelete bool) {
 // instance / operation type around valid content) sent by the elected primary.
 func VfC12_malformed() {
 	s, id := vfPrimaryServer()
+	// a label entry whose key an out-of-range 64-bit label could alias (same low 32 bits)
+	if oks, _, err := s.masterRIB.AddEntry(DefaultNetworkInstanceName, &spb.AFTOperation{Id: 904, NetworkInstance: DefaultNetworkInstanceName, Op: spb.AFTOperation_ADD,
+		Entry: &spb.AFTOperation_Mpls{Mpls: &aftpb.Afts_LabelEntryKey{Label: &aftpb.Afts_LabelEntryKey_LabelUint64{LabelUint64: 200}, LabelEntry: &aftpb.Afts_LabelEntry{NextHopGroup: &wpb.UintValue{Value: 1}}}}}); err != nil || len(oks) != 1 {
+		panic("cannot seed label entry")
+	}
 	op := &spb.AFTOperation{Id: 5, ElectionId: id}
 	typ := vfI32("op.type") // any enum number, defined or not
 	op.Op = spb.AFTOperation_Operation(typ)
